@@ -190,7 +190,7 @@ Section Legal.
         - exists il, (tk + 1 + 1 + 1), O, t4, 64. split; [reflexivity|]. split; [lia|exact M4]. }
       destruct blocks as [|b [|b2 bs]]; try exact Multi.
       destruct (cmd_rejected_sys 24 mem il tk k t last idx ltac:(auto) Hk Hi Ha Hm) as (t' & E24 & M).
-      eexists. split; [unfold bind, CMD24; rewrite E24; reflexivity|].
+      subst ct. eexists. split; [unfold bind, CMD24; rewrite E24; reflexivity|].
       exists il, (tk + 1), O, t', 64. split; [reflexivity|]. split; [lia|exact M].
   Qed.
 
@@ -267,11 +267,51 @@ Section Legal.
       unfold bind, attempt. rewrite E1. destruct R1 as (il & tk & k & t & last & -> & _). reflexivity.
   Qed.
 
+  (* ---- calls the card rejects: block number at or beyond the capacity ------------------------------- *)
+  Definition rejected (c : api_call) : bool :=
+    match c with CRead _ idx | CWrite _ idx => negb (idx <? NB) | _ => false end.
+  Definition idx_of (c : api_call) : N := match c with CRead _ idx | CWrite _ idx => idx | _ => 0 end.
+
+  (* the calls covered: in range, or rejected outright (any u32 block number) *)
+  Definition legal_call (c : api_call) : Prop := if rejected c then idx_of c < 2 ^ 32 else in_range c.
+
+  Definition spec_outcome (mem : N -> list N) (c : api_call) : outcome api_value :=
+    if rejected c then Err (match c with CRead _ _ => ReadError | _ => WriteError end)
+    else Ok (snd (spec_step mem c)).
+  Definition spec_after (mem : N -> list N) (c : api_call) : N -> list N :=
+    if rejected c then mem else fst (spec_step mem c).
+
+  Lemma with_init_err {A} (m : M card A) (k : A -> api_value) s mem e :
+    Inv s mem ->
+    (forall s1, Ready s1 mem -> exists s2, m s1 = (Err e, s2) /\ Ready s2 mem) ->
+    exists s', with_init card card_spi o m k s = (Err e, s') /\ Ready s' mem.
+  Proof.
+    intros HI Hop. destruct (check_init_ready s mem HI) as (s1 & E1 & R1).
+    destruct (Hop s1 R1) as (s2 & E2 & R2). exists s2. split; [|exact R2].
+    unfold with_init, bind. rewrite E1, E2. reflexivity.
+  Qed.
+
+  Theorem api_step_all s mem c : Inv s mem -> mem_ok mem -> legal_call c ->
+    exists s', API c s = (spec_outcome mem c, s') /\ Inv s' (spec_after mem c) /\ mem_ok (spec_after mem c).
+  Proof.
+    intros HI Hmem Hl. unfold legal_call, spec_outcome, spec_after in *.
+    destruct (rejected c) eqn:Rj; [|apply api_step; assumption].
+    destruct c as [n idx|blocks idx| | | | |]; cbn [rejected idx_of] in Rj, Hl; try discriminate.
+    - apply negb_true_iff, N.ltb_ge in Rj.
+      destruct (with_init_err (read_inner card card_spi o n idx) VBlocks s mem ReadError HI) as (s' & E & R).
+      { intros s1 R1. apply read_oor_sys; assumption. }
+      exists s'. split; [exact E|]. split; [left; exact R|exact Hmem].
+    - apply negb_true_iff, N.ltb_ge in Rj.
+      destruct (with_init_err (write_inner card card_spi o blocks idx) (fun _ => VUnit) s mem WriteError HI) as (s' & E & R).
+      { intros s1 R1. apply write_oor_sys; assumption. }
+      exists s'. split; [exact E|]. split; [left; exact R|exact Hmem].
+  Qed.
+
   (* ---- histories --------------------------------------------------------------------------------- *)
   Fixpoint spec_mem (mem : N -> list N) (cs : list api_call) : N -> list N :=
-    match cs with [] => mem | c :: cs' => spec_mem (fst (spec_step mem c)) cs' end.
-  Fixpoint spec_values (mem : N -> list N) (cs : list api_call) : list api_value :=
-    match cs with [] => [] | c :: cs' => snd (spec_step mem c) :: spec_values (fst (spec_step mem c)) cs' end.
+    match cs with [] => mem | c :: cs' => spec_mem (spec_after mem c) cs' end.
+  Fixpoint spec_values (mem : N -> list N) (cs : list api_call) : list (outcome api_value) :=
+    match cs with [] => [] | c :: cs' => spec_outcome mem c :: spec_values (spec_after mem c) cs' end.
 
   Lemma Inv_mon s mem : Inv s mem -> exists h, mon (tr s) = inl h.
   Proof.
@@ -280,26 +320,31 @@ Section Legal.
   Lemma Inv_mem s mem : Inv s mem -> c_mem (dev s) = mem.
   Proof. intros [(il & tk & k & t & last & -> & _)|(_ & _ & _ & _ & _ & _ & Hm & _)]; [reflexivity|exact Hm]. Qed.
 
-  Theorem history_run : forall cs s mem acc, Inv s mem -> mem_ok mem -> Forall in_range cs ->
-    exists s', run_calls card card_spi o cs acc s = (rev (map Ok (spec_values mem cs)) ++ acc, s') /\
+  Lemma spec_outcome_not_panic mem c : spec_outcome mem c <> Panic.
+  Proof. unfold spec_outcome. destruct (rejected c); discriminate. Qed.
+
+  Theorem history_run : forall cs s mem acc, Inv s mem -> mem_ok mem -> Forall legal_call cs ->
+    exists s', run_calls card card_spi o cs acc s = (rev (spec_values mem cs) ++ acc, s') /\
                Inv s' (spec_mem mem cs) /\ mem_ok (spec_mem mem cs).
   Proof.
     induction cs as [|c cs IH]; intros s mem acc HI Hmem Hall.
     - exists s. split; [reflexivity|]. split; assumption.
     - inversion Hall as [|? ? Hc Hcs]; subst.
-      destruct (api_step s mem c HI Hmem Hc) as (s1 & E1 & I1 & M1).
-      destruct (IH s1 (fst (spec_step mem c)) (Ok (snd (spec_step mem c)) :: acc) I1 M1 Hcs) as (s2 & E2 & I2 & M2).
+      destruct (api_step_all s mem c HI Hmem Hc) as (s1 & E1 & I1 & M1).
+      destruct (IH s1 (spec_after mem c) (spec_outcome mem c :: acc) I1 M1 Hcs) as (s2 & E2 & I2 & M2).
       exists s2. split; [|split; assumption].
-      cbn [run_calls spec_values spec_mem map rev]. rewrite E1. rewrite E2. rewrite <- app_assoc. reflexivity.
+      cbn [run_calls spec_values spec_mem rev]. rewrite E1.
+      pose proof (spec_outcome_not_panic mem c) as NP.
+      destruct (spec_outcome mem c) as [v|e|] eqn:Eo; [| |congruence]; rewrite E2, <- app_assoc; reflexivity.
   Qed.
 
   Lemma Inv_power_on mem : Inv (init_st card (power_on kd csd tim mem)) mem.
   Proof. right. cbn. repeat split. exists h_init. split; reflexivity. Qed.
 
   (* C12_histories and C14_legal together: starting from a card as it is after power-up *)
-  Theorem legal_histories mem0 cs : mem_ok mem0 -> Forall in_range cs ->
+  Theorem legal_histories mem0 cs : mem_ok mem0 -> Forall legal_call cs ->
     exists s', run_calls card card_spi o cs [] (init_st card (power_on kd csd tim mem0)) =
-                 (rev (map Ok (spec_values mem0 cs)), s') /\
+                 (rev (spec_values mem0 cs), s') /\
                c_mem (dev s') = spec_mem mem0 cs /\
                accept (rev (tr s')) = true.
   Proof.
@@ -381,14 +426,14 @@ Section Legal.
     k_kind (dev s) = kd -> k_csd (dev s) = csd -> k_tim (dev s) = tim ->
     c_fbuf (dev s) = [] -> c_phase (dev s) = PIdle -> c_mem (dev s) = mem ->
     (exists h, mon (tr s) = inl h /\ h_mode h = HFree) ->
-    mem_ok mem -> in_range c ->
+    mem_ok mem -> legal_call c ->
     exists s1 s', API CMarkUninit s = (Ok VUnit, s1) /\
-                  API c s1 = (Ok (snd (spec_step mem c)), s') /\ Inv s' (fst (spec_step mem c)).
+                  API c s1 = (spec_outcome mem c, s') /\ Inv s' (spec_after mem c).
   Proof.
     intros Hk Hc Ht Hf Hp Hm Hh Hmem Hr.
     set (s1 := {| dev := dev s; tr := tr s; ctype := None |}).
     assert (I1 : Inv s1 mem) by (right; repeat split; assumption).
-    destruct (api_step s1 mem c I1 Hmem Hr) as (s' & E & I' & _).
+    destruct (api_step_all s1 mem c I1 Hmem Hr) as (s' & E & I' & _).
     exists s1, s'. split; [reflexivity|]. split; assumption.
   Qed.
 End Legal.
